@@ -176,6 +176,9 @@ func cmdEditCheck(args []string) {
 	lw := newLineWriter(args[1])
 	n, nontriv, positions := 0, 0, 0
 	var samples []any
+	if args[2] == "analysis" {
+		provokeOnce.Do(provoke) // texts with diagnostics of nearly every kind, analysed and rendered before the first document
+	}
 	readLines(args[0], func(b []byte) {
 		var g editGenLine
 		if err := json.Unmarshal(b, &g); err != nil {
